@@ -17,6 +17,7 @@ import (
 	"encoding/pem"
 	"os"
 	"path/filepath"
+	"sync"
 
 	"go.step.sm/crypto/jose"
 	"go.step.sm/crypto/minica"
@@ -30,6 +31,8 @@ import (
 	"github.com/smallstep/certificates/db"
 	"verif/harness/fixture"
 )
+
+var realMu sync.Mutex
 
 func newRealEnv(k *Case) (*Env, error) {
 	e := &Env{rec: &Recorder{}, extra: map[string]any{}}
@@ -108,6 +111,9 @@ func newRealEnv(k *Case) (*Env, error) {
 		return fail(err)
 	}
 	// the request logger keeps the os.Stderr it finds when it is built: give it the null device
+	// (one CA at a time: os.Stderr is process-wide)
+	realMu.Lock()
+	defer realMu.Unlock()
 	if null, err := os.OpenFile(os.DevNull, os.O_WRONLY, 0); err == nil {
 		saved := os.Stderr
 		os.Stderr = null
